@@ -115,3 +115,22 @@ Example C15_nonvacuous :
   mem_k (shade_memory_step {| mem_a := [1 # 2; 1 # 2]; mem_b := [1 # 2; 1 # 2]; mem_k := 1 |} [1; 1] [2; 1] [3 # 4; 1 # 4] [1; 0]) = 0%nat.
 Proof. vm_compute. auto. Qed.
 Print Assumptions C15_nonvacuous.
+
+(* ------------------------------------------------------------------------------------------------
+   THE TIE TO THE SOURCE for SHADE's samplers.  gen/GenCode.v is regenerated on every run from the bodies of
+   randc01 and randn01 in optimizers/_shade.py (harness/translate_code.py; semantics of the subset:
+   theories/Py.v); the models above are EQUAL to the generated definitions for every list of draws. *)
+From TF Require Import Py CodeEqC15.
+From TFG Require Import GenCode.
+
+Theorem C15_code_randc01 : forall u ds, py_randc01 u ds = randc01 ds.
+Proof. exact code_randc01. Qed.
+Print Assumptions C15_code_randc01.
+
+Theorem C15_code_randn01 : forall u ds, py_randn01 u ds = randn01 ds.
+Proof. exact code_randn01. Qed.
+Print Assumptions C15_code_randn01.
+
+Theorem C15_src_randn01_range : forall u ds v ds', py_randn01 u ds = Some (v, ds') -> (0 <= v /\ v <= 1)%Q.
+Proof. exact src_randn01_range. Qed.
+Print Assumptions C15_src_randn01_range.
